@@ -177,7 +177,9 @@ def fixed_cases(draw):
     rev = draw(st.booleans())
     return {"kind": "fixed", "family": family, "x": enc(vals), "y": enc(y), "w": enc(w), "wkind": wkind,
             "binsize": binsize, "nbin": nbin, "min": enc(vmin), "max": enc(vmax), "min_mode": mmin,
-            "max_mode": mmax, "entry": entry, "rev": rev}
+            "max_mode": mmax, "entry": entry, "rev": rev,
+            "before": draw(st.sampled_from([None, None, "min-cut", "max-cut", "both", "nper"]))
+            if entry != "histogram" else None}
 
 
 @st.composite
@@ -198,7 +200,9 @@ def nper_cases(draw):
     return {"kind": "nper", "family": family, "x": enc(vals), "y": enc(y), "w": enc(w), "wkind": wkind,
             "nperbin": nper, "mergelast": draw(st.sampled_from([True, False, None])),
             "min": enc(vmin), "max": enc(vmax), "min_mode": mmin, "max_mode": mmax, "entry": entry,
-            "rev": draw(st.booleans())}
+            "rev": draw(st.booleans()),
+            "before": draw(st.sampled_from([None, None, "min-cut", "max-cut", "both", "nper"]))
+            if entry != "histogram" else None}
 
 
 # ----------------------------------------------------------------------------- oracle
@@ -307,6 +311,17 @@ def _run(case, x, y, w, kw):
             hk["more"] = True
         return sut(es.histogram, x, **hk)
     b = es.Binner(x, y=y, weights=w)
+    # the object may have been used before with other settings: nothing of that call (limits, range selection,
+    # bin layout, statistics) may leak into the call that is judged below
+    before = case.get("before")
+    if before:
+        xs = np.sort(x)
+        cut_lo, cut_hi = float(xs[xs.size // 3]), float(xs[(2 * xs.size) // 3])
+        pk = {"min-cut": {"min": cut_lo}, "max-cut": {"max": cut_hi}, "both": {"min": cut_lo, "max": cut_hi},
+              "nper": {"nperbin": max(1, x.size // 2)}}[before]
+        if "nperbin" not in pk:
+            pk["nbin"] = 3
+        sut(b.dohist, rev=True, **pk)
     if case["entry"] == "binner-late":
         r = sut(b.dohist, calc_stats=False, rev=case["rev"], **kw)
         if isinstance(r, Raised):
